@@ -4,7 +4,7 @@
    harness from the same Rust build; a lookup that misses is recorded in the value so that the driver can
    complete the table and evaluate again. *)
 From Coq Require Import ZArith List Floats Uint63.
-From ND Require Import Overload Float.
+From ND Require Import Overload Float Wire.
 Import ListNotations.
 Local Open Scope Z_scope.
 
@@ -31,7 +31,6 @@ Definition f64_bits (x : float) : Z := bits_of_SF (Prim2SF x).
 Definition f64_of_bits (b : Z) : float := SF2Prim (SF_of_bits b).
 
 (* ---- oracle ---- *)
-Definition okey := (Z * Z * Z * Z)%type.      (* function id, argument bit patterns (0 when unused) *)
 Definition oracle := list (okey * Z).
 Definition okey_eqb (a b : okey) : bool :=
   let '(a1, a2, a3, a4) := a in let '(b1, b2, b3, b4) := b in
@@ -93,13 +92,6 @@ Section WithOracle.
   |}.
 End WithOracle.
 
-(* flattening of results for the comparison with the implementation *)
-Inductive otok := OBits (b : Z) | OMiss (k : okey) | ONone | OSome (r c : Z) | OBool (b : bool) | OInt (z : Z) | OTag (z : Z).
-Class Flat (A : Type) := flat : A -> list otok.
+(* flattening / reading of floats for the comparison with the implementation *)
 #[global] Instance Flat_xf : Flat xf := fun a => match xmiss a with [] => [OBits (f64_bits (xv a))] | m => map OMiss m end.
-#[global] Instance Flat_bool : Flat bool := fun b => [OBool b].
-#[global] Instance Flat_pair {A B} `{Flat A} `{Flat B} : Flat (A * B) := fun p => flat (fst p) ++ flat (snd p).
-#[global] Instance Flat_option {A} `{Flat A} : Flat (option A) := fun o => match o with None => [ONone] | Some a => OSome 0 0 :: flat a end.
-#[global] Instance Flat_list {A} `{Flat A} : Flat (list A) := fun l => OInt (Z.of_nat (length l)) :: flat_map flat l.
-#[global] Instance Flat_nat : Flat nat := fun n => [OInt (Z.of_nat n)].
-#[global] Instance Flat_Z : Flat Z := fun n => [OInt n].
+#[global] Instance Rd_xf : Rd xf := fun l => let '(b, r) := rdZ l in (xpure (f64_of_bits b), r).
